@@ -76,6 +76,28 @@ CHECKS = {
    text="Every library encoding of ~45k (quick) / ~2M (thorough) generic trees is parsed by an independently written strict parser and compared value by value; every canonical and over-long-sign-extended encoding from the independent generator is decoded by the library and compared. Ladders over string length mod 8, big-integer magnitudes around byte/word boundaries with both signs, integer extremes, empty/nested structures and tag extremes are enumerated completely. Sampling of an unbounded space: held on what was observed.",
    note="Trusts package wire (independent reading of KMIP 1.4 §9.1 by the same author). No third-party binary vectors exist in the repository.", ref="§2 C03"),
 }
+# additions after the second round of seeded changes (DESIGN.md §14)
+ADD = {
+ "C01": "The buffer handed to the decoder is overwritten as soon as the decoder returns; comparison and re-encoding happen after that.",
+ "C02": "Nested-extent family (3k/90k documents in XML, JSON and binary): a nested structure receives trailing children (an unknown-type element, altered copies of the parent's following fields); everything decoded outside that structure must equal what the undisturbed message decodes to, or the input is rejected.",
+ "C03": "Every tree is also encoded through one long-lived encoder after a filler message and Clear(); the bytes must equal the independent generator's.",
+ "C05": "Sequence family (1.5k/60k): 2-4 messages of different versions through ONE encoder, appended (binary) or with Clear() in between (binary, XML, JSON), each judged against the layout of its own version.",
+ "C06": "Concurrent family: 8 goroutines decode messages with goroutine-specific custom attributes / unknown operations and must re-encode their own bytes. The isolated late-registration family also registers a NAME for a vendor operation and then decodes all 27 built-in operations written by name by the harness's own XML/JSON writers.",
+ "C07": "Every fifth stream item is a bare scalar (9 leaf types, padded lengths).",
+ "C08": "TLS family (24/600): TLS listener over the in-memory listener with peers that stay silent, send only a record header, garbage, plain-text KMIP or leave; well-behaved TLS clients must be served meanwhile, nothing may survive the peers, and Shutdown must return with peers still stalled.",
+ "C09": "Versions family: all 31 supported-version sets (shuffled) x 11 request versions inside, in gaps of, below and above the set.",
+ "C10": "A further plan makes the server write a server-to-client request on the connection ahead of the response.",
+ "C11": "Late-response family (30/600): a net.Conn wrapper hands the frame-completing Read over only when Close is called, with the call abandoned by cancellation, deadline or Close; call returns, client recovers, census.",
+ "C13": "The scripted matrix runs through Dial and through DialCluster (with and without WithRetryTimeout): 19840 Dials.",
+ "C14": "A builder that produces no object for a key the property names is a violation. The transport buffer is overwritten after decoding. Held family (60/6000): 3-8 objects received on one stream, keys extracted after the last message arrived.",
+ "C15": "A fifth action stores the empty value; in half of the rounds a batch-splitting middleware passes half of the requests on in chunks through separate continuation calls.",
+ "C16": "Repeated-shutdown family (45/1500): two concurrent Shutdown calls, a second call while the first waits, listener closed by the owner first; verdicts use the first return.",
+ "C17": "Isolated family with vendor enumerations under extension tags whose Go type names equal standard tag names (State, ObjectType).",
+ "C19": "The server chains also run every program over a core that panics, returns an error, or (message chain) rejects the protocol version; the reference interpreter models what the innermost stage gets back.",
+}
+for _k, _v in ADD.items():
+    CHECKS[_k]["text"] += " " + _v
+
 BUILT = sorted(CHECKS)
 ALL = ["C%02d" % i for i in range(1, 21)]
 
